@@ -21,6 +21,7 @@ from __future__ import annotations
 import datetime
 import json
 import random
+import time
 import warnings
 
 import numpy as np
@@ -290,8 +291,7 @@ def oracle_cum(t, inc, back):
                     break
         if bad:
             break
-    if list(inc[1].cells) != sorted(inc[1].cells):
-        bad.append("result cells are not sorted")
+    bad += oracle_sorted(inc[1], "to_incremental result") + (oracle_sorted(back[1], "to_cumulative result") if back[0] == "ok" else [])
     if all(std_cum_row(r, True) for r in rows):
         if back[0] != "ok":
             bad.append(f"to_cumulative(to_incremental(t)) raised {type(back[1]).__name__}")
@@ -324,6 +324,7 @@ def oracle_inc(x, cum, back):
                         break
             if bad:
                 break
+        bad += oracle_sorted(cum[1], "to_cumulative result")
         if back[0] != "ok":
             bad.append(f"to_incremental(to_cumulative(x)) raised {type(back[1]).__name__}")
         elif canon_sorted(back[1].cells) != canon_sorted(x.cells):
@@ -344,6 +345,16 @@ def oracle_inc(x, cum, back):
     if broken and not (cum[0] == "err" and type(cum[1]).__name__ == "TriangleError"):
         bad.append(f"incremental triangle with a broken chain / inconsistent fields not refused: {res_summary(cum)}")
     return bad
+
+
+def oracle_sorted(tri, what):
+    """cells in canonical order: sorted(cells) (which only uses Cell.__lt__) leaves the list as it is"""
+    cs = list(tri.cells)
+    ref = sorted(cs)
+    if len(ref) != len(cs) or any(a is not b for a, b in zip(cs, ref)):
+        i = next((k for k, (a, b) in enumerate(zip(cs, ref)) if a is not b), 0)
+        return [f"{what}: cells are not in canonical order (first difference at position {i} of {len(cs)})"]
+    return []
 
 
 def oracle_plain_dates(res):
@@ -813,6 +824,127 @@ def hashcol_cells(rng, cells, basis):
     return out
 
 
+# ------------------------------------------------------------------------------------------ large stream (family Q)
+# A handful of big triangles per run, judged by the Python-side oracles only (no Coq literals: the theorems are
+# size-independent, it is the correspondence that samples).  Replays record the builder parameters.
+def month_end_after(d0, k):
+    y, m = d0.year + (d0.month - 1 + k) // 12, (d0.month - 1 + k) % 12 + 1
+    ny, nm = (y + 1, 1) if m == 12 else (y, m + 1)
+    return D(ny, nm, 1) - ONE
+
+
+def build_big(params):
+    """params: kind, basis, n_slices, n_evs, samples, seed -> Triangle.
+    Periods share starts with different lengths (Jan1-Jan31 / Jan1-Mar31 / Jan1-Dec31 / Feb1-Feb28), slices are
+    siblings differing in a limit beyond 2**53 or a detail, rows have n_evs monthly evaluations."""
+    from bermuda import CumulativeCell, Metadata, Triangle
+
+    rng = random.Random(params["seed"])
+    basis, n_evs, samples = params["basis"], params["n_evs"], params.get("samples", 0)
+    y0 = params.get("year", 2021)
+    periods = [(D(y0, 1, 1), D(y0, 1, 31)), (D(y0, 1, 1), D(y0, 3, 31)), (D(y0, 1, 1), D(y0, 12, 31)), (D(y0, 2, 1), D(y0, 2, 28))]
+    periods = periods[:params.get("n_periods", 4)]
+    evs = [month_end_after(D(y0, 12, 1), k) for k in range(n_evs)]
+    cells = []
+    for j in range(params["n_slices"]):
+        m = Metadata(per_occurrence_limit=2 ** 53 + j, details={"id": 20240000001 + j}) if j % 2 == 0 else \
+            Metadata(per_occurrence_limit=2 ** 53 + j - 1, details={"id": 20240000001 + j, "lob": "x"})
+        for ps, pe in periods:
+            if samples:
+                base = np.arange(2 * samples, dtype=np.int64)
+                vals = lambda i: {"paid_loss": (base * (i + 1 + j))[::-2][:samples] if i % 2 else (base[:samples] * (i + 1 + j)),  # noqa: E731
+                                  CARRY: np.full(samples, 100.0 + i)}
+            else:
+                a, b = rng.randint(1, 9), rng.randint(1, 9)
+                vals = lambda i, a=a, b=b: {"paid_loss": 2 ** 53 + a * i, "reported_loss": 1.5 * b * i, CARRY: 1000 + i}  # noqa: E731
+            cells += _row(CumulativeCell, m, ps, pe, evs, vals, basis)
+    rng.shuffle(cells)
+    with warnings.catch_warnings():
+        warnings.simplefilter("ignore")
+        return Triangle(cells)
+
+
+def big_params(ctx):
+    q = ctx.quick
+    ps = [dict(kind="slices-of-256", basis="cum", n_slices=5, n_evs=64, seed=ctx.seed),           # 1280 cells
+          dict(kind="slices-of-256", basis="inc", n_slices=5, n_evs=64, seed=ctx.seed + 1),
+          dict(kind="long-rows", basis="cum", n_slices=2, n_evs=70, n_periods=3, seed=ctx.seed + 2),   # rows of 70 > 65
+          dict(kind="long-rows", basis="inc", n_slices=2, n_evs=70, n_periods=3, seed=ctx.seed + 3),
+          dict(kind="big-samples", basis="cum", n_slices=1, n_evs=3, n_periods=2, samples=5000, seed=ctx.seed + 4),
+          dict(kind="big-samples", basis="inc", n_slices=1, n_evs=3, n_periods=2, samples=4096, seed=ctx.seed + 5)]
+    if True:        # cheap enough (a few seconds in total) to run in both tiers
+        ps += [dict(kind="2100-cells", basis="cum", n_slices=3, n_evs=176, seed=ctx.seed + 6),          # 2112 cells
+               dict(kind="3100-cells", basis="inc", n_slices=6, n_evs=130, seed=ctx.seed + 7),          # 3120 cells
+               dict(kind="1080-months", basis="cum", n_slices=1, n_evs=1080, n_periods=3, year=1950, seed=ctx.seed + 8),
+               dict(kind="1080-months", basis="inc", n_slices=1, n_evs=1080, n_periods=2, year=1950, seed=ctx.seed + 9),
+               dict(kind="1e5-samples", basis="cum", n_slices=1, n_evs=3, n_periods=1, samples=100000, seed=ctx.seed + 10),
+               dict(kind="1e4-samples", basis="inc", n_slices=2, n_evs=4, n_periods=2, samples=10000, seed=ctx.seed + 11)]
+    return ps
+
+
+def big_case(params):
+    t = build_big(params)
+    return {"label": "big:" + params["kind"], "basis": params["basis"], "tri": t, "recipe": None, "big": params,
+            "info": {"layout": "big", "values": "big", "n_slices": params["n_slices"], "same_fields": True,
+                     "cls": type(t.cells[0]).__name__, "fields": [], "basis": params["basis"]}}
+
+
+def large_stream(ctx, early_cases):
+    """-> list of (case, complaints).  Big triangles; a long chain of conversions; many distinct Metadata in one
+    process and then a re-check of the earliest small cases (process-wide state: caches, pools)."""
+    from bermuda import CumulativeCell, Metadata, Triangle
+
+    out = []
+    for prm in big_params(ctx):
+        c = big_case(prm)
+        bad = oracle_sorted(c["tri"], "Triangle(cells)") + oracles_for(c)
+        ctx.hist(f"label:{c['label']} ({len(c['tri'].cells)} cells, python oracles only)")
+        out.append((c, bad))
+    # long chain: 40 alternating conversions of one medium triangle
+    prm = dict(kind="long-chain", basis="cum", n_slices=2, n_evs=12, seed=ctx.seed + 20)
+    c = big_case(prm)
+    t = c["tri"]
+    bad = []
+    with warnings.catch_warnings():
+        warnings.simplefilter("ignore")
+        inc0 = t.to_incremental()
+        want_inc, want_cum = ct.canon_tri(inc0, ordered=False), ct.canon_tri(inc0.to_cumulative(), ordered=False)
+        cur = inc0
+        for k in range(40 if ctx.quick else 200):
+            cur = cur.to_cumulative() if cur.is_incremental else cur.to_incremental()
+            if ct.canon_tri(cur, ordered=False) != (want_inc if cur.is_incremental else want_cum):
+                bad.append(f"conversion number {k + 2} of an alternating chain differs from the first round trip")
+                break
+    ctx.hist("label:big:long-chain")
+    out.append((c, bad))
+    # many distinct Metadata in one process, then the earliest cases again
+    n_meta = 2200 if ctx.quick else 4300
+    nbad = []
+    with warnings.catch_warnings():
+        warnings.simplefilter("ignore")
+        for i in range(n_meta):
+            m = Metadata(details={"n": i, "k": "v%d" % (i % 7)}, per_occurrence_limit=i)
+            ev = [month_end_after(D(1930, 1, 1), i % 1100), month_end_after(D(1930, 1, 1), i % 1100 + 1 + i % 3)]
+            tt = Triangle([CumulativeCell(D(1930, 1, 1), D(1930, 1, 31), e, {"paid_loss": i + 10 * k_, CARRY: 5}, m)
+                           for k_, e in enumerate(ev)])
+            inc = tt.to_incremental()
+            ok = (len(inc.cells) == 2 and inc.cells[1].prev_evaluation_date == ev[0] and inc.cells[1].values["paid_loss"] == 10
+                  and inc.cells[0].prev_evaluation_date == D(1929, 12, 31)
+                  and [x.values["paid_loss"] for x in inc.to_cumulative().cells] == [i, i + 10])
+            if not ok and not nbad:
+                nbad.append(f"conversion number {i} of many small triangles with distinct Metadata is wrong")
+    ctx.hist(f"label:big:many-metadata ({n_meta} distinct)")
+    mm = {"label": "big:many-metadata", "basis": "cum", "tri": tt, "recipe": None, "big": {"kind": "many-metadata", "n": n_meta},
+          "info": {"layout": "big", "values": "big", "n_slices": 1, "same_fields": True, "cls": "CumulativeCell", "fields": [], "basis": "cum"}}
+    out.append((mm, nbad))
+    for c in early_cases:
+        bad = oracles_for(c)
+        if bad:
+            out.append((c, ["after the large work: " + b for b in bad]))
+    ctx.hist("label:re-check of the earliest cases after the large work", len(early_cases))
+    return out
+
+
 def gen_cases(ctx, n_total):
     """-> list of dicts {label, basis, cells(list), info}"""
     from bermuda import Cell, Triangle
@@ -1030,7 +1162,11 @@ def correspondence(ctx, cases, per_file):
 
 # ------------------------------------------------------------------------------------------ run / replay
 def case_data(case, extra=None):
-    d = {"label": case["label"], "info": case["info"], "cells": [cell_to_json(c) for c in case["tri"].cells]}
+    if case.get("big"):
+        d = {"label": case["label"], "info": case["info"], "big": case["big"], "n_cells": len(case["tri"].cells),
+             "how_to_rebuild": "harness.c04.build_big(big) -> Triangle; then to_incremental()/to_cumulative()"}
+    else:
+        d = {"label": case["label"], "info": case["info"], "cells": [cell_to_json(c) for c in case["tri"].cells]}
     if case.get("recipe"):
         d["recipe"] = case["recipe"]
         d["how_to_rebuild"] = ("old = Triangle(recipe.old); prehash (convert/slices/hash); tagged = "
@@ -1077,7 +1213,7 @@ def shrink(case, budget=400):
     """Greedy: drop cells while the direct oracles still complain (keeps replays small)."""
     from bermuda import Triangle
 
-    if case.get("recipe"):          # the failure may depend on object state built by the sequence
+    if case.get("recipe") or case.get("big"):   # state built by the sequence / size is the point
         out = dict(case)
         out["complaints"] = oracles_for(case)
         return out
@@ -1250,6 +1386,15 @@ def _run(ctx):
             ctx.violation("impl-violation", f"C04 fails on the implementation ({c['label']}): {bad[0]}",
                           case_data(small, {"complaints": bad, "shrunk_from_cells": len(c["tri"].cells)}),
                           found_input=True)
+    # 3b. large stream (family Q), Python-side oracles only
+    t_big = time.time()
+    for c, bad in large_stream(ctx, [c for c in cases if "tri" in c and not c.get("recipe")][:25]):
+        ctx.count(evaluations=2, traces=2)
+        if bad and n_viol < 5:
+            n_viol += 1
+            ctx.violation("impl-violation", f"C04 fails on the implementation ({c['label']}): {bad[0]}",
+                          case_data(c, {"complaints": bad}), found_input=True)
+    ctx.notes.append(f"large stream (family Q) judged by the Python-side oracles only, no Coq literals: {time.time() - t_big:.1f} s")
     for c in cases[:3]:
         ctx.sample({"label": c["label"], "info": c["info"], "n_cells": len(c["tri"].cells),
                     "first": res_summary(c["r1"]), "second": res_summary(c["r2"])})
@@ -1269,9 +1414,20 @@ def _run(ctx):
 def replay(ctx, data):
     from bermuda import Triangle
 
-    if "cells" not in data:
+    if "cells" not in data and not data.get("big"):
         print("replay data:", json.dumps(data)[:2000])
         return 1
+    if data.get("big") and data["big"].get("kind") == "many-metadata":
+        print("replay: re-run ./check C04 (the failure needs the whole many-metadata loop of the large stream)")
+        return 1
+    if data.get("big"):
+        t = build_big(data["big"])
+        case = {"label": data.get("label", "replay"), "tri": t, "info": data.get("info", {}), "basis": "?", "big": data["big"]}
+        bad = oracle_sorted(t, "Triangle(cells)") + oracles_for(case)
+        print(f"input: build_big({data['big']}) = {len(t.cells)} cells; first conversion -> {res_summary(case['r1'])}")
+        for b in bad:
+            print("  property fails:", b)
+        return 1 if bad else 0
     with warnings.catch_warnings():
         warnings.simplefilter("ignore")
         t = run_sequence(data["recipe"]) if data.get("recipe") else Triangle([cell_from_json(j) for j in data["cells"]])
